@@ -119,20 +119,30 @@ pub struct ServerExpect {
     pub boundaries: Vec<usize>,
     /// false if some read has several acceptable exception codes (stream not used)
     pub unambiguous: bool,
+    /// some write-multiple request in the stream has a byte-count field that disagrees with its data
+    pub lenient: bool,
 }
 
 pub fn server_expect(cfg: &ServerCfg, stream: &[u8]) -> ServerExpect {
+    server_expect_with(cfg, stream, false)
+}
+
+pub fn server_expect_with(cfg: &ServerCfg, stream: &[u8], strict_byte_count: bool) -> ServerExpect {
     let (frames, end) = if cfg.rtu { parse_rtu_stream(RtuRole::Request, stream) } else { parse_mbap_stream(stream) };
-    let mut model = cfg.model();
+    let mut model = cfg.model_with(strict_byte_count);
     let mut output = vec![];
     let mut calls = vec![];
     let mut scopes = vec![];
     let mut unambiguous = true;
     let mut boundaries = vec![];
     let mut pos = 0usize;
+    let mut lenient = false;
     for f in &frames {
         pos += if cfg.rtu { f.pdu.len() + 3 } else { f.pdu.len() + 7 };
         boundaries.push(pos);
+        if !byte_count_consistent(&f.pdu) {
+            lenient = true;
+        }
         let e = model.handle(f.unit, &f.pdu);
         if e.replies.len() > 1 {
             unambiguous = false;
@@ -145,7 +155,7 @@ pub fn server_expect(cfg: &ServerCfg, stream: &[u8]) -> ServerExpect {
             scopes.push(s);
         }
     }
-    ServerExpect { output, calls, scopes, end, frames: frames.len(), boundaries, unambiguous }
+    ServerExpect { output, calls, scopes, end, frames: frames.len(), boundaries, unambiguous, lenient }
 }
 
 #[derive(Clone, Copy, Debug, PartialEq, Eq, Hash, serde::Serialize, serde::Deserialize)]
@@ -200,6 +210,27 @@ pub fn run_server_stream_tail(
 /// `inject` = (chunk index, level): change the decode level through the server handle after
 /// that chunk has been delivered
 pub fn run_server_stream_inject(
+    cfg: &ServerCfg,
+    stream: &[u8],
+    cuts: &[usize],
+    exp: &ServerExpect,
+    check_shutdown: bool,
+    tail: Tail,
+    inject: Option<(usize, (u8, u8, u8))>,
+) -> Vec<(String, String)> {
+    let r = run_server_stream_once(cfg, stream, cuts, exp, check_shutdown, tail, inject);
+    if !r.is_empty() && exp.lenient {
+        // the strict reading of the byte-count field is equally acceptable
+        let strict = server_expect_with(cfg, stream, true);
+        let r2 = run_server_stream_once(cfg, stream, cuts, &strict, check_shutdown, tail, inject);
+        if r2.is_empty() {
+            return r2;
+        }
+    }
+    r
+}
+
+fn run_server_stream_once(
     cfg: &ServerCfg,
     stream: &[u8],
     cuts: &[usize],
@@ -563,6 +594,8 @@ pub fn run_client_stream_tail(
         ClientExpect::Completes(dec, then_error) => {
             let good = match (dec, &got) {
                 (ReplyDecode::Ok(v), Some(Outcome::Ok(g))) => v == g,
+                (ReplyDecode::OkLenient(v), Some(Outcome::Ok(g))) => v == g,
+                (ReplyDecode::OkLenient(_), Some(Outcome::Err(e))) => !matches!(e, ErrClass::Exception(_)),
                 (ReplyDecode::Exception(c), Some(Outcome::Err(ErrClass::Exception(g)))) => c == g,
                 (ReplyDecode::Other, Some(Outcome::Err(e))) => !matches!(e, ErrClass::Exception(_)),
                 _ => false,
@@ -653,7 +686,7 @@ pub fn run_client_stream_tail(
 fn client_stream_job(prop: &str, rtu: bool, req: &Req, label: &str, stream: &[u8], bound: ChunkBound, st: &mut Stats) {
     let (exp, boundaries) = client_expect(rtu, req, 0, stream);
     st.class(match &exp {
-        ClientExpect::Completes(ReplyDecode::Ok(_), _) => "client-accepts",
+        ClientExpect::Completes(ReplyDecode::Ok(_), _) | ClientExpect::Completes(ReplyDecode::OkLenient(_), _) => "client-accepts",
         ClientExpect::Completes(ReplyDecode::Exception(_), _) => "client-exception",
         ClientExpect::Completes(ReplyDecode::Other, _) => "client-rejects-reply",
         ClientExpect::FramingError => "client-framing-error",
